@@ -32,42 +32,43 @@ Definition full_span (s : source) : res span :=
 Definition src_next_position (s : source) (base : pos) : res (option pos) :=
   with_byte_offset base (byte (soff s)) (fun b => next_position (smet s) (stext s) b).
 
-(** source.rs:166-181 (as repaired: a line that starts at the start of a windowed text starts
-    at the window's start column) *)
+(** [first_line_position] (source.rs, added by the repair): a position on the first line of a
+    text that starts at a nonzero column is re-measured forward from the start position. *)
+Fixpoint src_walk (fuel : nat) (s : source) (p : pos) (target : nat) : res pos :=
+  match fuel with
+  | 0 => Fuel
+  | S f =>
+    if target <=? byte p then Ok p
+    else do o <- src_next_position s p;
+         match o with None => Ok p | Some q => src_walk f s q target end
+  end.
+
+Definition first_line_position (s : source) (p : pos) : res pos :=
+  if negb (line p =? line (soff s)) || (col (soff s) =? 0) then Ok p
+  else src_walk (S (length (stext s))) s (soff s) (byte p).
+
+(** source.rs line_start_position *)
 Definition src_line_start_position (s : source) (base : pos) : res pos :=
   do p <- unwrap (with_byte_offset base (byte (soff s))
              (fun b => rmap Some (line_start_position (smet s) (stext s) b)));
-  Ok (if byte p =? byte (soff s) then mkpos (byte p) (line p) (col (soff s)) else p).
+  first_line_position s p.
 
 Definition src_line_end_position (s : source) (base : pos) : res pos :=
   unwrap (with_byte_offset base (byte (soff s))
             (fun b => rmap Some (line_end_position (smet s) (stext s) b))).
 
-(** [while p.byte < target { p = self.next_position(p)? }] *)
-Fixpoint src_walk (fuel : nat) (s : source) (p : pos) (target : nat) : res (option pos) :=
-  match fuel with
-  | 0 => Fuel
-  | S f =>
-    if target <=? byte p then Ok (Some p)
-    else do o <- src_next_position s p;
-         match o with None => Ok None | Some q => src_walk f s q target end
-  end.
-
-(** source.rs:145-149 (as repaired: a result on the first line of a windowed text is
-    re-measured from the start position, whose column need not be zero) *)
+(** source.rs previous_position *)
 Definition src_previous_position (s : source) (base : pos) : res (option pos) :=
   do r <- with_byte_offset base (byte (soff s))
             (fun b => previous_position (smet s) (stext s) b);
   match r with
   | None => Ok None
-  | Some q =>
-    if line q =? line (soff s) then src_walk (S (length (stext s))) s (soff s) (byte q)
-    else Ok (Some q)
+  | Some q => do q' <- first_line_position s q; Ok (Some q')
   end.
 
-(** source.rs:153-157: [debug_assert!(byte > self.offset.byte)] then an unchecked subtraction. *)
+(** source.rs is_line_break: [debug_assert!(byte >= self.offset.byte)] then a subtraction. *)
 Definition src_is_line_break (s : source) (b : nat) : res bool :=
-  if byte (soff s) <? b then is_line_break (smet s) (stext s) (b - byte (soff s)) else Panic.
+  if byte (soff s) <=? b then is_line_break (smet s) (stext s) (b - byte (soff s)) else Panic.
 
 Definition src_previous_line_end_position (s : source) (base : pos) : res (option pos) :=
   do ls <- src_line_start_position s base; src_previous_position s ls.
